@@ -10,6 +10,7 @@ import (
 	"path/filepath"
 	"strconv"
 	"strings"
+	"sync"
 
 	"github.com/Dash-Industry-Forum/livesim2/pkg/chunkparser"
 	"github.com/Eyevinn/dash-mpd/mpd"
@@ -23,6 +24,7 @@ type Receiver struct {
 	ctx        context.Context
 	prefix     string
 	storage    string
+	mu         sync.Mutex        // protects streams
 	streams    map[string]stream // mapped by stream.id()
 	channelMgr *ChannelMgr
 }
@@ -83,9 +85,14 @@ func (r *Receiver) SegmentHandlerFunc(w http.ResponseWriter, req *http.Request) 
 		discardUpload(w, req, http.StatusOK)
 		return
 	}
-	if _, ok := r.streams[stream.id()]; !ok {
-		log.Info("New stream", "urlPath", path, "streamId", stream.id(), "mediaType", stream.mediaType)
+	r.mu.Lock()
+	_, knownStream := r.streams[stream.id()]
+	if !knownStream {
 		r.streams[stream.id()] = stream
+	}
+	r.mu.Unlock()
+	if !knownStream {
+		log.Info("New stream", "urlPath", path, "streamId", stream.id(), "mediaType", stream.mediaType)
 		err := os.MkdirAll(stream.trDir, 0755)
 		if err != nil {
 			log.Error("Failed to create directory", "err", err)
@@ -165,7 +172,7 @@ func (r *Receiver) SegmentHandlerFunc(w http.ResponseWriter, req *http.Request) 
 			}
 			seg := chunk.Segments[0]
 			moof := seg.Fragments[0].Moof
-			trd, ok := ch.trDatas[trName]
+			trd, ok := ch.getTrData(trName)
 			if !ok {
 				return fmt.Errorf("failed to find track data trName: %s", trName)
 			}
@@ -313,11 +320,9 @@ func (r *Receiver) SegmentHandlerFunc(w http.ResponseWriter, req *http.Request) 
 	// Receive raw segments
 	nrRead := 0
 	nrWritten := 0
-	trD, ok := ch.trDatas[stream.trName]
-	if !ok {
+	trD, isNew := ch.getOrAddRawTrData(stream.trName)
+	if isNew {
 		log.Debug("New raw track data")
-		trD = &trData{name: stream.trName}
-		ch.trDatas[stream.trName] = trD
 	}
 
 	if trD.nrSegsReceived >= ch.receiveNrRaws && (contentLength == 0 || contentLength >= 4096) {
